@@ -189,7 +189,7 @@ func runC13(c *Ctx) {
 	}
 
 	// ------------------------------------------------------------------------------------------------ R2
-	c.rule("C13-R2", "Close closes, once: the close(2) is dominated by a once-guard and every path past the guard reaches it", 16)
+	c.rule("C13-R2", "Close closes, once: the close(2) is dominated by a once-guard and every path past the guard reaches it; the websocket stream closes the connection it dialed", 17)
 	sysClose := p.ExtFunc("syscall", "Close")
 	munmap := p.ExtFunc("syscall", "Munmap")
 	type closer struct{ pkg, typ, method string }
@@ -290,6 +290,33 @@ func runC13(c *Ctx) {
 				}
 			}
 		}
+	}
+
+	// the websocket stream owns the connection it dialed: CloseNextLayer closes it whenever there is one
+	{
+		fn := p.Method("codec/websocket", "Stream", "CloseNextLayer")
+		connF := p.Field("codec/websocket", "Stream", "conn")
+		closes := false
+		why := "CloseNextLayer never calls Close on s.conn"
+		eachInstrDeep(fn, func(in, site ssa.Instruction, tr func(ssa.Value) ssa.Value) {
+			call, ok := in.(ssa.CallInstruction)
+			if !ok || !call.Common().IsInvoke() || call.Common().Method.Name() != "Close" || !loadOfField(tr(call.Common().Value), connF) {
+				return
+			}
+			// under no condition other than s.conn != nil
+			okG := true
+			for _, l := range guardsOf(site.Block()) {
+				if x, eq, isNT := l.nilTest(); !(isNT && !eq && loadOfField(x, connF)) {
+					okG = false
+				}
+			}
+			if okG {
+				closes = true
+			} else {
+				why = "CloseNextLayer closes s.conn only under a further condition"
+			}
+		})
+		c.check(closes, fn, "closes the connection", fn.Pos(), "s.conn.Close() whenever s.conn != nil", why+": the descriptor of the dialed connection stays open after the stream was closed")
 	}
 
 	// ------------------------------------------------------------------------------------------------ R3
